@@ -38,7 +38,7 @@ def with_state(spec, snap):
     """spec with vertex poses replaced by the snapshot (list of [id, kind, comps] in the same list order)."""
     s = {"vertices": [dict(v, pose=list(sn[2])) for v, sn in zip(spec["vertices"], snap)], "edges": spec["edges"]}
     for k in spec:
-        if k not in s:
+        if k not in s and k != "share":  # after an optimizer step the poses are new objects: the sharing is gone
             s[k] = spec[k]
     return s
 
@@ -76,6 +76,7 @@ def run(spec0, rep, steps, tol=1e-11, direct=True, ffp=False):
             # shuffle helper does); the first graph must keep working
             I.Graph([], [vA[j] for j in rep.perm])
         specB = rep.spec_map(spec)
+        specB.pop("share", None)  # object reuse is a property of the original description only
         gB, vB, eB = GB.build(specB)
         info["states"] += 1
         sc = 1.0 + _tscale(spec) + _tscale(specB) + rep.scale
@@ -96,7 +97,8 @@ def run(spec0, rep, steps, tol=1e-11, direct=True, ffp=False):
                 info["ratio"] = max(info["ratio"], r)
                 if not r <= 1.0:
                     msgs.append("state %d: error of edge #%d changes under the %s: %r -> %r" % (k, n_, rep.name, a.tolist(), b.tolist()))
-        if getattr(rep, "inplace", False):
+        if getattr(rep, "inplace", False) and not spec.get("share"):
+            # (not for graphs with object reuse: rewriting a pose that IS a measurement object legitimately changes the measurement)
             # history: a third graph is evaluated once in the original description, then its vertex poses are rewritten IN PLACE
             # into the R-description (same objects, same edges); everything must follow (no stale per-object intermediate results)
             gC, vC, eC = GB.build(spec)
@@ -139,7 +141,7 @@ def run(spec0, rep, steps, tol=1e-11, direct=True, ffp=False):
             info["ratio"] = max(info["ratio"], r)
             if not r <= 1.0:
                 msgs.append("state %d: GN(%s(x)) != %s(GN(x)) at vertex id %r (%s): %r vs %r (|diff| %.3g > %.3g)" % (k, rep.name, rep.name, v["id"], v["kind"], got, [float(x) for x in exp], d, tolp))
-        if getattr(rep, "inplace", False) and not msgs:
+        if getattr(rep, "inplace", False) and not spec.get("share") and not msgs:
             for vc, vb in zip(vC, [byidB.get(rep.id_map(v["id"])) for v in spec["vertices"]]):
                 gc, gb = I.comps(vc.pose), I.comps(vb.pose)
                 if all(np.isfinite(gc)) and all(np.isfinite(gb)):
@@ -153,7 +155,9 @@ def run(spec0, rep, steps, tol=1e-11, direct=True, ffp=False):
     if direct and not msgs and info["squares"] == steps + 1:
         # direct k-step comparison (looser: five nonlinear steps amplify rounding)
         gA, vA, eA = GB.build(spec0)
-        gB, vB, eB = GB.build(rep.spec_map(copy.deepcopy(spec0)))
+        sB = rep.spec_map(copy.deepcopy(spec0))
+        sB.pop("share", None)
+        gB, vB, eB = GB.build(sB)
         GB.optimize(gA, tol=0.0, max_iter=steps, fix_first_pose=False)
         GB.optimize(gB, tol=0.0, max_iter=steps, fix_first_pose=False)
         byidB = {v.id: v for v in vB}
@@ -168,7 +172,9 @@ def run(spec0, rep, steps, tol=1e-11, direct=True, ffp=False):
     if direct and not msgs and info["squares"] == steps + 1:
         # the optimum reached by a full optimize() run is the same physical configuration, and final_chi2 scales accordingly
         gA, vA, eA = GB.build(spec0)
-        gB, vB, eB = GB.build(rep.spec_map(copy.deepcopy(spec0)))
+        sB = rep.spec_map(copy.deepcopy(spec0))
+        sB.pop("share", None)
+        gB, vB, eB = GB.build(sB)
         rA = GB.optimize(gA, tol=1e-10, max_iter=50, fix_first_pose=False)
         rB = GB.optimize(gB, tol=1e-10, max_iter=50, fix_first_pose=False)
         byidB = {v.id: v for v in vB}
